@@ -53,11 +53,11 @@ ISSUER = cert(app_lens=(1,), groups=ISSUER_GROUPS)
 SUBJECT = cert(groups=[None] + GROUPS, app_lens=(None, 0, 1, 2))
 S = dict(mode="int", spec_module="spec_sec", engine_setup=models_sec.setup, frame_check=False, props=["C09"])
 
-contract(f"{CERT}.get_list_of_needed_permissions", shapes={"self": cert(groups=[None] + GROUPS)},
+contract(f"{CERT}.get_list_of_needed_permissions", bound="certificate dictionaries with at most 2 permission groups of at most 2 PSIDs and at most 2 appPermissions", shapes={"self": cert(groups=[None] + GROUPS)},
          ensures={"exactly_the_app_and_explicit_issue_psids": "forall(lambda p: implies(0 <= p, (p in result) == (p in app_psids(self.certificate) or p in issue_psids(self.certificate))))"},
          **S)
 
-contract(f"{CERT}.check_issuer_has_subject_permissions", shapes={"self": SUBJECT, "issuer": ISSUER}, inline=[f"{CERT}.get_list_of_needed_permissions"],
+contract(f"{CERT}.check_issuer_has_subject_permissions", bound="certificate dictionaries with at most 2 permission groups of at most 2 PSIDs and at most 2 appPermissions", shapes={"self": SUBJECT, "issuer": ISSUER}, inline=[f"{CERT}.get_list_of_needed_permissions"],
          raises={"KeyError": "'appPermissions' not in self.certificate['toBeSigned'] and not issues_all(issuer.certificate) and not issues_all(self.certificate)"},
          ensures={"true_only_if_every_needed_psid_is_issuable_by_the_issuer": "implies(result, issues_all(issuer.certificate) or explicitly_contained(self.certificate, issuer.certificate))",
                   "issuing_for_all_needs_an_issuer_that_issues_all": "implies(result and issues_all(self.certificate), issues_all(issuer.certificate))",
@@ -65,13 +65,13 @@ contract(f"{CERT}.check_issuer_has_subject_permissions", shapes={"self": SUBJECT
          canary={"always": "result", "never": "not result"}, **S)
 
 OWNC = T.rec(OWN, certificate=cert_dict(groups=GROUPS, app_lens=(1,)), issuer=T.none, key_id=T.int(0))
-contract(f"{OWN}.check_enough_min_chain_length_for_issuer", shapes={"self": OWNC},
+contract(f"{OWN}.check_enough_min_chain_length_for_issuer", bound="certificate dictionaries with at most 2 permission groups of at most 2 PSIDs and at most 2 appPermissions", shapes={"self": OWNC},
          ensures={"true_iff_every_group_has_chain_length_left": "result == chain_length_allows(self.certificate)"},
          canary={"always": "result", "never": "not result"}, **S)
 
 VSUBJ = cert(groups=[None, [1]], app_lens=(1,), sig=SIGVAL, issuer=T.oneof(T.none, cert(app_lens=(1,), groups=[["all"], [1]])))
 _ISSUED = "self.certificate['issuer'][0] == 'sha256AndDigest'"
-contract(f"{CERT}.verify", shapes={"self": VSUBJ, "backend": T.opaque("ecdsa_backend")}, may_raise=["Exception"], inline=[f"{CERT}.as_hashedid8"],
+contract(f"{CERT}.verify", bound="certificate dictionaries with at most 2 permission groups of at most 2 PSIDs and at most 2 appPermissions", shapes={"self": VSUBJ, "backend": T.opaque("ecdsa_backend")}, may_raise=["Exception"], inline=[f"{CERT}.as_hashedid8"],
          ensures={
              "accepted_only_after_one_signature_check_that_passed": "implies(result, n_sig_checks() == 1 and sig_check()[3])",
              "signature_checked_over_this_certificates_to_be_signed_part": "implies(result, len(ghost('tbs_cert_encoded')) == 1 and tbs_cert_encoding()[0] is self.certificate['toBeSigned'] and sig_check()[0] == tbs_cert_encoding()[1] and sig_check()[1] == self.certificate['signature'])",
@@ -135,7 +135,7 @@ contract(f"{CERT}.as_hashedid8", shapes={"self": cert(groups=[None], app_lens=(1
 
 # ------------------------------------------------------------------------------------------- issuing: chain length
 contract(f"{CERT}.set_chain_length_issue_permissions",
-         shapes={"self": cert(groups=[None, [1], ["all"], [2, 1]], app_lens=(1,)), "issuer": T.rec(OWN, certificate=cert_dict(groups=[["all"], [1], [2, 1], [1, "all"]], app_lens=(1,)), issuer=T.none, key_id=T.int(0))},
+         bound="certificate dictionaries with at most 2 permission groups of at most 2 PSIDs and at most 2 appPermissions", shapes={"self": cert(groups=[None, [1], ["all"], [2, 1]], app_lens=(1,)), "issuer": T.rec(OWN, certificate=cert_dict(groups=[["all"], [1], [2, 1], [1, "all"]], app_lens=(1,)), issuer=T.none, key_id=T.int(0))},
          returns=cert(groups=[None], app_lens=(1,)),
          ensures={"every_issuing_group_of_the_new_certificate_has_chain_length_left_and_one_less_than_an_issuer_group": "all(g['minChainLength'] >= 1 and any(g['minChainLength'] == ig['minChainLength'] - 1 for ig in issue_groups(issuer.certificate)) for g in issue_groups(result.certificate))",
                   "the_issuer_attribute_is_set": "result.issuer is not None"},
